@@ -1,6 +1,6 @@
 (* Properties_C08.v — the theorems that decide property C08 on the model, each stated in full and closed by
    `exact <lemma>`; the lemmas live in the Proofs_*.v files.  Nothing else belongs in this file. *)
-From Theo Require Import Base Regex Tokens Errors Lexer Scan MacroExtract Grammar LR MacroApply Parser VMModel VMSpec VMCheck GenModel Compile Gen_Lexer Gen_Consts CompileStatements Proofs_Front Proofs_Gen.
+From Theo Require Import Base Regex Tokens Errors Lexer Scan MacroExtract Grammar LR MacroApply Parser VMModel VMSpec VMCheck GenModel Compile Gen_Lexer Gen_Consts CompileStatements Proofs_Front Proofs_Gen LocStatements Proofs_Loc.
 Local Open Scope Z_scope.
 
 
@@ -31,3 +31,27 @@ Theorem C08_parser_positions :
     forall f l, In (f, l) (positions root) -> exists t, In t toks /\ tfile t = f /\ tline t = l.
 Proof. exact C08_parser_positions_proof. Qed.
 Print Assumptions C08_parser_positions.
+
+Theorem C08_extract_positions :
+  forall toks errs out macros, extract_macros toks = Ok (errs, out, macros) ->
+    (forall t, In t out -> In t toks) /\
+    (forall m t, In m macros -> In t (m_rule m) \/ In t (m_repl m) -> In (pos_of t) (map pos_of toks)).
+Proof. exact C08_extract_positions_proof. Qed.
+Print Assumptions C08_extract_positions.
+
+Theorem C08_apply_positions :
+  forall input defs passes errs out, apply_macros input defs passes = Ok (errs, out) ->
+    forall t, In t out ->
+      In (pos_of t) (map pos_of input) \/ exists m b, In m defs /\ In b (m_repl m) /\ pos_of t = pos_of b.
+Proof. exact C08_apply_positions_proof. Qed.
+Print Assumptions C08_apply_positions.
+
+Theorem C08_locations :
+  forall files main r b, compile files main = Ok r -> cr_ok r = true -> In b (available (cr_prog r)) ->
+    bfile b <> hidden_file /\
+    exists toks serrs t,
+      scan Gen_Lexer.rules (let f1 := with_standards files in
+                            if fcontains f1 main then prepend_to f1 main incl_phrase else f1) main = Ok (toks, serrs) /\
+      In t toks /\ tfile t = bfile b /\ tline t = bline b.
+Proof. exact C08_locations_proof. Qed.
+Print Assumptions C08_locations.
